@@ -1940,7 +1940,6 @@ func ruleC14R9(w *World, r *Report) {
 	}
 }
 
-
 // ruleC14R13: a byte that begins an operator or a punctuation of the reference list never leads to a lexical error
 // inside consumeToken. The first byte is followed through the function with the exact domain "set of byte values"
 // (every comparison of it with a constant splits the set; other conditions do not); at each raise — a call that does
